@@ -44,6 +44,8 @@ def run(ctx):
         if cls == 'quat_sq3': return Qm(3, 3), q(3, 3), False
         if cls == 'quat_1x1': return Qm(1, 1, True), q(1, 1), True
         if cls == 'quat_2x2h': return Qm(2, 2, True), q(2, 2), True
+        if cls == 'quat_1x1n':                      # 1 x 1, not Hermitian (non-zero vector part)
+            a = Qm(1, 1); a[0, 0] = quaternion.quaternion(1.0, 2.0, -3.0, 0.5); return a, q(1, 1), False
         if cls == 'quat_tall': return Qm(4, 2), q(4, 2), False
         if cls == 'quat_wide': return Qm(2, 4), q(2, 4), False
         if cls == 'quat_1xn': return Qm(1, 3), q(1, 3), False
@@ -82,10 +84,10 @@ def run(ctx):
      'hybrid_compute': (lambda A: solver.HybridRSPNewtonSchulz(r=1, p=2, T=1, max_iter=2, seed=0).compute(A), 'tall'),
      'cgne_compute': (lambda A: solver.CGNEQSolver(max_iter=2).compute(A), 'tall'),
     }
-    classes = ['quat_herm3', 'quat_sq3', 'quat_1x1', 'quat_2x2h', 'quat_tall', 'quat_wide', 'quat_1xn', 'quat_nx1', 'real_sq3', 'complex_sq3', 'sparse_sq3', 'quat_3d', 'quat_1d']
+    classes = ['quat_herm3', 'quat_sq3', 'quat_1x1', 'quat_1x1n', 'quat_2x2h', 'quat_tall', 'quat_wide', 'quat_1xn', 'quat_nx1', 'real_sq3', 'complex_sq3', 'sparse_sq3', 'quat_3d', 'quat_1d']
     def expected(kind, cls, herm):
         quat2d = cls.startswith('quat_') and cls not in ('quat_3d', 'quat_1d')
-        sq = cls in ('quat_herm3', 'quat_sq3', 'quat_1x1', 'quat_2x2h')
+        sq = cls in ('quat_herm3', 'quat_sq3', 'quat_1x1', 'quat_1x1n', 'quat_2x2h')
         if kind == 'dense2d': return 'accept' if quat2d else 'reject'
         if kind == 'dense': return 'accept' if quat2d else ('reject' if cls in ('real_sq3', 'complex_sq3', 'sparse_sq3') else 'either')
         if cls in ('quat_3d', 'quat_1d'): return 'reject'
@@ -93,8 +95,8 @@ def run(ctx):
         if kind == 'square': return 'accept' if sq else 'reject'
         if kind == 'hermitian': return 'accept' if (sq and herm) else 'reject'
         if kind == 'hermitian2': return 'accept' if (sq and herm and cls != 'quat_1x1') else 'reject'
-        if kind == 'tall': return 'accept' if cls in ('quat_herm3', 'quat_sq3', 'quat_1x1', 'quat_2x2h', 'quat_tall', 'quat_nx1') else 'reject'
-        if kind == 'wide': return 'accept' if cls in ('quat_herm3', 'quat_sq3', 'quat_1x1', 'quat_2x2h', 'quat_wide', 'quat_1xn') else 'reject'
+        if kind == 'tall': return 'accept' if cls in ('quat_herm3', 'quat_sq3', 'quat_1x1', 'quat_1x1n', 'quat_2x2h', 'quat_tall', 'quat_nx1') else 'reject'
+        if kind == 'wide': return 'accept' if cls in ('quat_herm3', 'quat_sq3', 'quat_1x1', 'quat_1x1n', 'quat_2x2h', 'quat_wide', 'quat_1xn') else 'reject'
     for entry, (fn, kind) in single.items():
         for cls in classes:
             val, lit, herm = arr(cls)
